@@ -494,7 +494,11 @@ func (p *Program) locW(root ssa.Value, path string, at ssa.Instruction, depth in
 			if argIdx < 0 {
 				continue
 			}
-			if _, isB := c.Value.(*ssa.Builtin); isB {
+			if bi, isB := c.Value.(*ssa.Builtin); isB {
+				// copy(dst, src) writes the elements of src into dst
+				if bi.Name() == "copy" && argIdx == 0 && len(c.Args) == 2 {
+					p.provInto(out, c.Args[1], path, depth)
+				}
 				continue
 			}
 			p.callWrites(x, argIdx, path, depth, out, seen)
